@@ -163,6 +163,19 @@ Theorem C15_verdict_iff : forall order ms tnum tden,
 Proof. exact send_transaction_iff. Qed.
 Print Assumptions C15_verdict_iff.
 
+(* Corollary: when no peer asked for the transaction - no peer connected, all
+   peers silent, or peers that only send rejects / getdata for something else -
+   the broadcast succeeds, so that the transaction is kept for rebroadcast. *)
+Theorem C15_no_repliers_success : forall order ms tnum tden,
+  replies (collect ms) = [] -> send_transaction order ms tnum tden = VNone.
+Proof. exact no_repliers_success. Qed.
+Print Assumptions C15_no_repliers_success.
+
+Theorem C15_nobody_asked_success : forall order ms tnum tden,
+  no_getdata ms = true -> send_transaction order ms tnum tden = VNone.
+Proof. exact nobody_asked_success. Qed.
+Print Assumptions C15_nobody_asked_success.
+
 (* Which error: never the "invalid error mapping" fallback (threshold > 0, the
    iteration order covers the codes); the returned code was sent by some
    replier; when all repliers rejected it is a most frequent code, otherwise
